@@ -108,6 +108,7 @@ type Options struct {
 	Verbose          bool
 	NoBackend        bool
 	BackendHandler   http.Handler // replaces the recording backend's handler
+	ForwardPath      string       // path of the forward URL (escaped form), e.g. "/api"
 }
 
 type Stack struct {
@@ -176,6 +177,9 @@ func Start(o Options) (*Stack, error) {
 	to, _ := url.Parse("http://127.0.0.1:1")
 	if s.Backend.Srv != nil {
 		to, _ = url.Parse(s.Backend.Srv.URL)
+	}
+	if o.ForwardPath != "" {
+		to, _ = url.Parse(to.String() + o.ForwardPath)
 	}
 	var lw io.Writer = s.LogBuf
 	if o.Log != nil {
